@@ -78,7 +78,7 @@ func (x *c17) drain() {
 		x.g.tokens <- struct{}{}
 		select {
 		case <-x.g.atGate:
-		case <-time.After(10 * time.Second):
+		case <-time.After(120 * time.Second):
 			panic("c17: the remover did not come back to its gate")
 		}
 		if q := disk.VerifQueuedBytes(x.f.c); q != 0 {
